@@ -128,6 +128,13 @@ package best
 //@   requires proposerConfig != nil && res != nil && unheld(s.relayPubkeysMu)
 //@   requires forall k int :: 0 <= k && k < len(proposerConfig.Relays) ==> proposerConfig.Relays[k] != nil
 //@   ensures result0 != 0 && result1 != 0
+//@   // C20: a relay's goroutine is only started while both channels have room for one more message than there are
+//@   // goroutines already: as each sends exactly one message, none can block when the auction has ended without it
+//@   ghost nstarted Int = 0
+//@   at call go#1: assert nstarted < chancap(arg3) && nstarted < chancap(arg4)
+//@   at call go#1: ghost nstarted = nstarted + 1
+//@   loop 1
+//@     invariant nstarted <= rangeindex + 1
 //@   modifies res.AllProviders, contents(s.relayPubkeys)
 //@
 //@ func (*Service).BuilderBid
